@@ -119,8 +119,7 @@ SPECS = {
             },
         }],
         'rule': ('one run = one seeded history of 10-36 wallet operations weighted towards transaction requests (send / send_to / '
-                 'sweep single and multi target / bumpfee / later send) on funded wallets of every kind, with fees explicit / '
-                 'automatic / named coming from simulated providers through the cache and clock; every returned transaction is '
+                 'sweep single and multi target / bumpfee / later send) on funded wallets of every kind, requests in int / Value / string amount forms, with Address objects, max_utxos, input_key_id, locktime, fixed output order and explicit input lists (valid, too small, far too large, with a repeated entry, with an output the wallet already spent), with fees explicit / automatic / named coming from simulated providers through the cache and clock; every returned transaction is '
                  'checked as object and as serialization (reference parser, chain prevout values). Non-trivial: >= 5 operations '
                  'and >= 1 successful library call; distinct = distinct event-log digests.'),
         'state_measure': 'distinct (wallet kind, witness type, request api, #inputs bucket, #outputs bucket, fee argument, stage)',
